@@ -573,6 +573,8 @@ class SymEx:
         init = v.get("init")
         if v.get("ref") or is_ref_type(ty):
             x = self.eval(init, env, fn)
+            if isinstance(x, list) and len(x) == 1:
+                x = x[0]      # `const T& r{expr};`
             if not isinstance(x, Loc):
                 t = self.new_temp("V")
                 self.store[t.key()] = x
@@ -591,8 +593,11 @@ class SymEx:
             return
         x = self.eval(init, env, fn)
         if init.get("k") == "InitList" and isinstance(x, list):
-            self._store_list(loc, x)
-            return
+            if len(x) == 1 and not ty.rstrip().endswith("]"):
+                x = x[0]      # `T v{expr};`
+            else:
+                self._store_list(loc, x)
+                return
         if isinstance(x, Loc):
             # scalar or aggregate copy alike: written cells are snapshotted, unwritten input cells linked
             self.copy_agg(loc, x, v.get("l"))
@@ -787,6 +792,12 @@ class SymEx:
                 if rn * rn == c.numerator and rd * rd == c.denominator:
                     return Poly.const(Fraction(rn, rd))
             raise NotClosedForm("square root of %s is not rational" % a)
+        if callee in ("FEAT::Math::abs", "std::abs", "std::fabs") and len(n.get("a", [])) == 1:
+            a = self.num(self.eval(n["a"][0], env, fn))
+            c = a.const_value()
+            if c is None:
+                raise NotClosedForm("absolute value of the non-constant %s" % a)
+            return Poly.const(abs(c))
         if callee in ("FEAT::assertion",):
             return None
         args_n = list(n.get("a", []))
@@ -983,6 +994,10 @@ class AbsSymEx(SymEx):
         self.events = []       # {n, callee, cfull, ccls, this, args, node, ret, fn}
         self.havoc = set()     # roots defined by opaque calls
         self.nsym = 0
+        self.versioned = False # name the cells of call-defined objects <location>@<defining event>
+        self.ver = {}          # root -> number of the event that defined it last
+        self.loop_stack = []   # symbols of the abstract loops being executed
+        self.hlinks = {}       # copies of (parts of) call-defined objects: (root, path) -> (source Loc, version)
 
     def fresh(self, base):
         self.nsym += 1
@@ -994,11 +1009,33 @@ class AbsSymEx(SymEx):
             return None
         return t
 
+    def _havoc_name(self, loc, ver=None):
+        v = self.ver.get(loc.root) if ver is None else ver
+        return loc_name(loc) + ("@%d" % v if self.versioned and v is not None else "")
+
+    def copy_agg(self, dst, src, line=None):
+        super().copy_agg(dst, src, line)
+        n = len(dst.path)
+        for k in [k for k in self.hlinks if k[0] == dst.root and k[1][:n] == dst.path]:
+            del self.hlinks[k]
+        if self.links.get(dst.key()) is None and (src.root in self.havoc or any(isinstance(e, str) and e.startswith("#") for e in src.path)) and not is_input_root(src.root):
+            self.hlinks[dst.key()] = (src, self.ver.get(src.root))
+
     def read(self, loc):
         try:
             return super().read(loc)
         except NotClosedForm:
-            if loc.root in self.havoc or any(isinstance(e, str) and e.startswith("#") for e in loc.path):
+            p = loc.path
+            for n in range(len(p), -1, -1):
+                h = self.hlinks.get((loc.root, p[:n]))
+                if h is not None:
+                    src = Loc(h[0].root, h[0].path + p[n:])
+                    if src.key() in self.store:
+                        return self.store[src.key()]
+                    return Poly.sym(self._havoc_name(src, h[1]))
+            if loc.root in self.havoc:
+                return Poly.sym(loc_name(loc) + ("@%d" % self.ver[loc.root] if self.versioned and loc.root in self.ver else ""))
+            if any(isinstance(e, str) and e.startswith("#") for e in loc.path):
                 return Poly.sym(loc_name(loc))
             raise
 
@@ -1026,10 +1063,13 @@ class AbsSymEx(SymEx):
             except NotClosedForm:
                 rec["cond"] = None
         self.loops.append(rec)
+        self.loop_stack.append([v["sym"] for v in rec["vars"]])
         try:
             self.exec(n["body"], env, fn)
         except (_Break, _Continue):
             pass
+        finally:
+            self.loop_stack.pop()
 
     @staticmethod
     def _inc_targets(inc):
@@ -1087,7 +1127,22 @@ class AbsSymEx(SymEx):
     # opaque calls --------------------------------------------------------------------------------
     def record_event(self, n, callee, this_loc, args, fn, kind="call"):
         ev = {"n": len(self.events), "kind": kind, "callee": callee, "cfull": n.get("cfull", ""), "ccls": n.get("ccls", ""),
-              "this": this_loc, "args": args, "node": n, "fn": fn, "pn": n.get("pn", []), "line": n.get("l")}
+              "this": this_loc, "args": args, "node": n, "fn": fn, "pn": n.get("pn", []), "line": n.get("l"),
+              "loops": [s for l in self.loop_stack for s in l], "in_versions": {}, "contents": {}}
+        for a in list(args) + ([this_loc] if this_loc is not None else []):
+            if isinstance(a, Loc):
+                if a.root in self.ver:
+                    ev["in_versions"][loc_name(Loc(a.root))] = self.ver[a.root]
+                syms = set()
+                for rest, v in self.sub_entries(a):
+                    if isinstance(v, Poly):
+                        syms |= v.symbols()
+                for m in range(len(a.path), -1, -1):
+                    l2 = self.links.get((a.root, a.path[:m]))
+                    if l2 is not None:
+                        syms.add(loc_name(Loc(l2.root, l2.path + a.path[m:])))
+                        break
+                ev["contents"][loc_name(a)] = syms
         self.events.append(ev)
         return ev
 
@@ -1100,14 +1155,17 @@ class AbsSymEx(SymEx):
             ty = fn.type(t)
             if isinstance(a, Loc) and is_ref_type(ty) and not ty.lstrip().startswith("const ") and not is_input_root(a.root):
                 self.havoc.add(a.root)
+                self.ver[a.root] = ev["n"]
                 self._forget(a)
         if n["k"] in ("Construct", "TempObj"):
             if this_loc is not None and not is_input_root(this_loc.root):
                 self.havoc.add(this_loc.root)
+                self.ver[this_loc.root] = ev["n"]
             ev["ret"] = this_loc
             return this_loc
         if this_loc is not None and not n.get("cconst") and not is_input_root(this_loc.root):
             self.havoc.add(this_loc.root)
+            self.ver[this_loc.root] = ev["n"]
             self._forget(this_loc)
         r = Loc("CALL%d:%s" % (ev["n"], callee.rsplit("::", 1)[-1]))
         ev["ret"] = r
@@ -1138,3 +1196,133 @@ class AbsSymEx(SymEx):
                 return loc
             return self._opaque_entry(self, n, n.get("callee", ""), loc, args, fn)
         return SymEx.construct(self, n, env, fn, loc)
+
+
+# -------------------------------------------------------------------------------------------------
+# loop-free accept/reject predicates (engine E13 on top of the symbolic evaluator)
+# -------------------------------------------------------------------------------------------------
+
+class PredEx(SymEx):
+    """Extracts the accepted set of a bool predicate of the shape
+        [straight-line arithmetic]  if(C1) return false; ...  if(Cn) return false;  return E;
+    (constant-bound loops unrolled) as a conjunction of atoms  L > 0 / L >= 0  with L a polynomial in the
+    inputs.  Anything else (early `return true`, disjunctive accept sets, data dependent loops) is refused."""
+
+    def __init__(self, facts_list, opaque=None):
+        super().__init__(facts_list, opaque=opaque)
+        self.constraints = []   # boolean formulas that must hold for `true` to be returned
+        self.depth = 0          # the predicate statements are recognised in the entry function only
+
+    def inline(self, target, this_loc, args_n, env, fn, n):
+        self.depth += 1
+        try:
+            return super().inline(target, this_loc, args_n, env, fn, n)
+        finally:
+            self.depth -= 1
+
+    def construct(self, n, env, fn, loc):
+        self.depth += 1
+        try:
+            return super().construct(n, env, fn, loc)
+        finally:
+            self.depth -= 1
+
+    # boolean formulas: ("const", b) | ("atom", strict, Poly)  meaning Poly > 0 / >= 0 | ("and"|"or", a, b) | ("not", a)
+    def formula(self, n, env, fn):
+        k = n.get("k")
+        if k == "Bool":
+            return ("const", bool(n["v"]))
+        if k == "Un" and n.get("op") == "!":
+            return ("not", self.formula(n["e"], env, fn))
+        if k == "Bin" and n["op"] in ("&&", "||"):
+            return ("and" if n["op"] == "&&" else "or", self.formula(n["lhs"], env, fn), self.formula(n["rhs"], env, fn))
+        if k == "Bin" and n["op"] in ("<", "<=", ">", ">=", "==", "!="):
+            a = self.num(self.eval(n["lhs"], env, fn))
+            b = self.num(self.eval(n["rhs"], env, fn))
+            d = (b - a)
+            c = d.const_value()
+            op = n["op"]
+            if c is not None:
+                return ("const", {"<": c > 0, "<=": c >= 0, ">": c < 0, ">=": c <= 0, "==": c == 0, "!=": c != 0}[op])
+            if op == "<":
+                return ("atom", True, d)
+            if op == "<=":
+                return ("atom", False, d)
+            if op == ">":
+                return ("atom", True, -d)
+            if op == ">=":
+                return ("atom", False, -d)
+            if op == "==":
+                return ("and", ("atom", False, d), ("atom", False, -d))
+            return ("or", ("atom", True, d), ("atom", True, -d))
+        v = self.rv(self.eval(n, env, fn))
+        if isinstance(v, Poly) and v.const_value() is not None:
+            return ("const", v.const_value() != 0)
+        raise NotClosedForm("condition %s is not a comparison formula" % (n.get("k"),))
+
+    @staticmethod
+    def _const_return(n):
+        """True/False if statement n is `return <bool literal>` (possibly wrapped in a block), else None"""
+        while n is not None and n.get("k") == "Block" and len(n.get("s", [])) == 1:
+            n = n["s"][0]
+        if n is not None and n.get("k") == "Return" and (n.get("e") or {}).get("k") == "Bool":
+            return bool(n["e"]["v"])
+        return None
+
+    def exec(self, n, env, fn):
+        if self.depth > 0:
+            return super().exec(n, env, fn)
+        if n is not None and n.get("k") == "If":
+            try:
+                c = self.truth(self.eval(n["c"], env, fn))
+            except NotClosedForm:
+                c = None
+            if c is None:
+                f = self.formula(n["c"], env, fn)
+                r = self._const_return(n.get("then"))
+                if r is False and n.get("else") is None:
+                    self.constraints.append(("not", f))
+                    return
+                raise NotClosedForm("branch on input data that is not an `if(...) return false;` early-out (line %s)" % n.get("l"))
+            if c:
+                return self.exec(n.get("then"), env, fn)
+            if n.get("else") is not None:
+                return self.exec(n["else"], env, fn)
+            return
+        if n is not None and n.get("k") == "Return" and n.get("e") is not None:
+            self.constraints.append(self.formula(n["e"], env, fn))
+            raise _Return(None)
+        return super().exec(n, env, fn)
+
+    def atoms(self):
+        """accepted set as a list of (strict, Poly) atoms (conjunction); refuses disjunctions"""
+        out = []
+
+        def nnf(f, neg):
+            t = f[0]
+            if t == "const":
+                return ("const", f[1] != neg)
+            if t == "not":
+                return nnf(f[1], not neg)
+            if t == "atom":
+                return ("atom", not f[1], -f[2]) if neg else f
+            a, b = nnf(f[1], neg), nnf(f[2], neg)
+            op = t if not neg else ("or" if t == "and" else "and")
+            return (op, a, b)
+
+        def collect(f):
+            if f[0] == "const":
+                if not f[1]:
+                    out.append((False, Poly.const(-1)))
+                return
+            if f[0] == "atom":
+                out.append((f[1], f[2]))
+                return
+            if f[0] == "and":
+                collect(f[1])
+                collect(f[2])
+                return
+            raise NotClosedForm("the accepted set is not a conjunction of inequalities")
+        for c in self.constraints:
+            collect(nnf(c, False))
+        return out
